@@ -74,7 +74,7 @@ def gen(rng, tier):
                 'others': [{'nitems': rng.choice([1, 3, 17, 100, rng.randrange(1, 400)]), 'chunk': rng.choice([1, 2, 3, 5, 7, 64]),
                             'nframes': rng.choice([1, 2, 3])} for _ in range(rng.choice([1, 1, 2]))]}
     return {
-        'concurrent': conc, 'reused_buffer': rng.random() < 0.25,
+        'concurrent': conc, 'reused_buffer': rng.random() < 0.25, 'failed_call_before': rng.random() < 0.2,
         'pseed': rng.randrange(1 << 30), 'pattern': rng.choice(['random', 'ramp', 'zeros']),
         'nitems': nitems, 'itemsize': itemsize, 'cbs': cbs, 'cuts': cuts,
         'ones': style == 'ones', 'empties': empties,
@@ -208,6 +208,17 @@ def run(case):
     for cl in classes:
         bump(out['faults'], cl)
     bump(out['probes'], 'frames=%s' % (len(frames) if len(frames) < 3 else '3+'))
+    shared = BloscCompressor()
+    if case.get('failed_call_before') and len(stream) > 8:
+        # history: the same compressor instance was first given a damaged stream (a flipped byte inside the first
+        # frame, cut in two chunks) and failed; the valid streams that follow must be unaffected
+        bad = bytearray(stream)
+        bad[min(len(bad) - 1, 9)] ^= 0x5A
+        try:
+            _decompress(lambda: shared, [bytes(bad[:7]), bytes(bad[7:])], nbytes, case.get('poison', 'A'))
+        except Exception:
+            pass
+        bump(out['faults'], 'failed-call-before')
     # ---- baseline: whole stream in one chunk
     site = 'decompress-direct'
     try:
@@ -221,7 +232,8 @@ def run(case):
         violation(out, 'wrong-bytes', site + '-onechunk', 'first diff at %d' % _firstdiff(b0, payload))
     # ---- the chunked history
     try:
-        n1, b1, ok1 = _decompress(BloscCompressor, tchunks, nbytes, case.get('poison', 'A'))
+        n1, b1, ok1 = _decompress((lambda: shared) if case.get('failed_call_before') else BloscCompressor, tchunks, nbytes,
+                                  case.get('poison', 'A'))
     except Exception as e:
         violation(out, 'raises:' + type(e).__name__, site, repr(e)[:300])
         n1 = None
